@@ -293,11 +293,27 @@ func worker() {
 			}
 		}()
 	}
+	// the fixed workloads first, and what has been recorded so far is written out as the run goes
+	// on: if later scenarios stop finishing and the worker has to be stopped, what was observed
+	// until then still reaches the verdict
+	extraWorkloads(r, rec)
+	rec.write(resPath, false)
+	stopFlush := make(chan struct{})
+	go func() {
+		for {
+			select {
+			case <-stopFlush:
+				return
+			case <-time.After(20 * time.Second):
+				rec.write(resPath, false)
+			}
+		}
+	}()
 	total := 0
 	det := generate(r, func(sc *Scenario) { total++; ch <- sc })
 	close(ch)
 	wg.Wait()
-	extraWorkloads(r, rec)
+	close(stopFlush)
 	rec.Count("scenarios_total", int64(total))
 	rec.Count("scenarios_deterministic", int64(det))
 	rec.write(resPath, true)
